@@ -67,6 +67,15 @@ func c11Inputs() []c11Input {
 	}
 	e := nl(big, 20)
 	l = append(l, c11Input{"lexical_failure_early", at(big, e, "print @\n"), e + 6})
+	// every lexical-failure kind early in a long input (what follows would lex fine)
+	for k, bad := range []string{"print \"abc\\\ndef\" + 1\n", "print \"abc\nprint 2\n", "print 1x\n", "print 1.\n", "print 1e+\n", "print ab\"\n", "print \"s\"x\n", "print 1 ! 2\n", "print 0x1g\n", "print é\n"} {
+		e := nl(big, 20+k)
+		mark := e + len(bad) - 1
+		if k == 0 {
+			mark = e + len("print \"abc\\\n") - 1
+		}
+		l = append(l, c11Input{fmt.Sprintf("lexical_failure_kind_%d", k), at(big, e, bad), mark})
+	}
 	e = nl(big, 9000)
 	l = append(l, c11Input{"lexical_failure_late", at(big, e, "print \"unterminated\n"), e + len("print \"unterminated")})
 	// lexical failure exactly at the start of the second page
@@ -163,7 +172,25 @@ func c11Run(c *core.Ctx, i int64, in c11Input, kinds []int, r *rand.Rand) {
 		_, _, err = bcl.InterpretFile(sc, bcl.OptLogger(lg), bcl.OptOutput(out))
 	case 2:
 		var t c11Target
-		err = bcl.UnmarshalFile(sc, &t, bcl.OptLogger(lg), bcl.OptOutput(out))
+		// the target may be unusable: the input must be read (or not) and closed all the same
+		var target any = &t
+		switch i % 11 {
+		case 3:
+			target = t
+		case 5:
+			target = nil
+		case 8:
+			target = []c11Target{}
+		case 9:
+			target = (*c11Target)(nil)
+		}
+		pan, stack := protect(func() { err = bcl.UnmarshalFile(sc, target, bcl.OptLogger(lg), bcl.OptOutput(out)) })
+		if pan != "" {
+			c.Violation(panicSig(pan, stack), "UnmarshalFile panicked: "+pan, nil)
+		}
+		if i%11 == 3 || i%11 == 5 || i%11 == 8 || i%11 == 9 {
+			c.Count("runs_UnmarshalFile_with_unusable_target", 1)
+		}
 	}
 	c.Eval(1)
 	left, dump, polls := mon.WaitQuiescent(14)
@@ -367,11 +394,30 @@ func c12Pipeline(c *core.Ctx, i int64, r *rand.Rand) {
 	for k := 0; k*chunk < len(src)+chunk; k++ {
 		steps = append(steps, mon.Step{N: chunk, Delay: []int{0, 0, 0, 1, 2}[r.Intn(5)]})
 	}
+	readErr := i%5 == 3
+	if readErr {
+		// a read fault on a late read; the log writer is a plain buffer: only one goroutine of the pipeline may use it
+		cut := len(steps) * 2 / 3
+		steps = append(steps[:cut:cut], mon.Step{N: chunk, Err: mon.ErrInjected})
+	}
 	sc := mon.NewScript("c12.bcl", src, steps)
 	lg := &mon.LockedWriter{}
 	out := &mon.LockedWriter{}
 	pt := mon.NewPerturb(core.Mix(c.Seed, i), int(i))
 	remove := pt.Install()
+	if readErr {
+		var plainLog, plainOut bytes.Buffer
+		_, err := bcl.ParseFile(sc, bcl.OptLogger(&plainLog), bcl.OptOutput(&plainOut), bcl.OptStats(i%2 == 0))
+		mon.WaitQuiescent(14)
+		remove()
+		c.Eval(1)
+		if strings.Contains(sc.ReadLog(), mon.ErrInjected.Error()) && !errors.Is(err, mon.ErrInjected) {
+			c.Violation("pipeline-result", fmt.Sprintf("the reader delivered a read error but ParseFile returned %v", err), nil)
+			return
+		}
+		c.Count("pipeline_runs_with_read_error_and_plain_log_buffer", 1)
+		return
+	}
 	_, err := bcl.ParseFile(sc, bcl.OptLogger(lg), bcl.OptOutput(out))
 	mon.WaitQuiescent(14)
 	remove()
@@ -456,13 +502,14 @@ func c12Callers(c *core.Ctx, i int64, r *rand.Rand) {
 
 func c12SharedProg(c *core.Ctx, i int64, r *rand.Rand) {
 	src := c11Valid(100 + r.Intn(800))
-	src = append(src, []byte("print base + 41\nprint \"done\"\n")...)
+	src = append(src, []byte("print base + 41\nbind blk:first -> slice\nbind blk:all -> slice\nprint \"done\"\n")...)
 	if r.Intn(3) == 0 {
 		src = append(src, []byte("print 1 / 0\n")...)
 	}
 	out := &mon.LockedWriter{}
+	lgSeq := &mon.LockedWriter{}
 	lg := &mon.LockedWriter{}
-	p, err := bcl.Parse(src, "shared", bcl.OptOutput(out), bcl.OptLogger(lg))
+	p, err := bcl.Parse(src, "shared", bcl.OptOutput(out), bcl.OptLogger(lgSeq))
 	if err != nil {
 		c.Inconclusive("shared program does not parse")
 		return
@@ -502,6 +549,12 @@ func c12SharedProg(c *core.Ctx, i int64, r *rand.Rand) {
 	sort.Strings(want)
 	if strings.Join(lines, "\n") != strings.Join(want, "\n") {
 		c.Violation("shared-prog-output", fmt.Sprintf("output of %d concurrent executions is not %d times the sequential output", n, n), map[string]any{"source": core.Trunc(string(src), 1000)})
+		return
+	}
+	// warnings: every execution logs the same warnings
+	seqWarn := strings.Count(lgSeq.String(), "WARNING")
+	if got := strings.Count(lg.String(), "WARNING"); got != n*seqWarn || seqWarn == 0 {
+		c.Violation("shared-prog-log", fmt.Sprintf("%d concurrent executions logged %d warnings, one execution logs %d", n, got, seqWarn), map[string]any{"source": core.Trunc(string(src), 1000)})
 		return
 	}
 	// executing did not alter the program
